@@ -28,7 +28,7 @@ type Inst struct {
 
 	// breaker (virtual clock)
 	CB        cbmodel.Config `json:"cb,omitempty"`
-	DelayFunc bool           `json:"delay_func,omitempty"` // LastResult()==3 -> 5ns, else no opinion
+	DelayFunc bool           `json:"delay_func,omitempty"` // breaker: LastResult()==3 -> 5ns, else no opinion; retry: a recording delay function without an opinion
 
 	// fallback
 	FbKind string `json:"fb_kind,omitempty"` // result | error | func
@@ -92,6 +92,9 @@ func (in Inst) describe() string {
 		}
 		if in.CancelInScheduled {
 			s += " cancel-in-scheduled"
+		}
+		if in.DelayFunc {
+			s += " delay-fn"
 		}
 		return s + "}"
 	case "breaker":
